@@ -23,6 +23,9 @@ func (c *Compiler) declType(s *Sym) {
 	}
 	srcNamed := obj.Type().(*types.Named)
 	decl := c.Pkg.NewType(ts.Name.Name)
+	if d := docOf(ts.Doc); d != nil {
+		decl.SetComments(c.Pkg, d)
+	}
 	s.tdecl = decl
 	c.named[srcNamed] = decl.Type()
 	s.state = stDeclared // recursive references see the declared name
@@ -173,6 +176,25 @@ func (c *Compiler) declFunc(s *Sym) {
 		return
 	}
 	s.fn = c.Pkg.NewFunc(recv, d.Name.Name, sig.Params(), sig.Results(), sig.Variadic())
+	if doc := docOf(d.Doc); doc != nil {
+		s.fn.SetComments(c.Pkg, doc)
+	}
+}
+
+// docOf turns a documentation comment of the source into the position-less form gogen takes.
+func docOf(g *ast.CommentGroup) *ast.CommentGroup {
+	if g == nil || len(g.List) == 0 {
+		return nil
+	}
+	out := &ast.CommentGroup{}
+	for i, cm := range g.List {
+		t := cm.Text
+		if i == 0 {
+			t = "\n" + t
+		}
+		out.List = append(out.List, &ast.Comment{Text: t})
+	}
+	return out
 }
 
 // body compiles the body of function unit i (declaring the function first if needed).
@@ -199,6 +221,9 @@ func (c *Compiler) body(i int) {
 		}
 		c.B.End()
 	})
+	if c.opts.AfterBody != nil {
+		c.opts.AfterBody(c)
+	}
 }
 
 func (c *Compiler) funcBody(b *ast.BlockStmt, unit int) {
